@@ -445,7 +445,7 @@ Proof.
 Qed.
 Print Assumptions C09_unrepaired_gcp_single_row_refuted.
 
-(** Before repair 740a608 a variable that does not span the Dataset's spatial dimensions -- here a
+(** Before repair 2e3019e a variable that does not span the Dataset's spatial dimensions -- here a
     (time, band) table without coordinates, which inherits the scalar CRS coordinate -- was taken
     for a raster (relaxed spatial dims = its last two dimensions, transform = the GeoTransform),
     warped, and came back with dimensions (y, x).  The repaired code passes it through. *)
